@@ -1379,6 +1379,38 @@ def check_from_expression(rep: Report, ix) -> None:
             raise _grammar(fi, ctor, "ScalarExpression(...) without expression")
         # coordinate arguments at every call of the expression object
         calls = g.find_calls(lambda c: isinstance(c.func, ast.Name) and c.func.id == obj)
+        # evaluation through np.vectorize(obj[, otypes=...])(*coords): the wrapper is looked through, but
+        # without explicit `otypes` numpy takes the dtype of the result from the first cell (an integer
+        # literal branch of a Piecewise there truncates every other cell)
+        wrapped = g.find_calls(lambda c: isinstance(c.func, ast.Call) and _leaf(c.func.func) == "vectorize" and c.func.args and isinstance(c.func.args[0], ast.Name) and c.func.args[0].id == obj)
+        for cn, c in wrapped:
+            w = c.func
+            kws = {k.arg: k.value for k in w.keywords}
+            if len(w.args) != 1 or set(kws) - {"otypes"}:
+                raise _grammar(fi, w, f"`{ast.unparse(w)}`")
+            ot = kws.get("otypes")
+            ot_txt = ast.unparse(ot) if ot is not None else None
+            ok_ot = ot is not None and any(t in ot_txt for t in ("float", "double", "complex", "'d'", '"d"', "dtype", "np.number", "np.inexact"))
+            _ob(rep, "from-expression-value-dtype", fi.ref, "vectorize::otypes", ok_ot, f"`{ast.unparse(w)}`: without an inexact `otypes` numpy infers the dtype of all values from the value of the first cell, so an integer-valued first cell truncates every other cell to an integer", line=w.lineno)
+        # any other use of the expression object as a value (map, frompyfunc, stored, returned...) is not understood
+        known_nodes = {id(c.func) for _, c in calls} | {id(c.func.args[0]) for _, c in wrapped}
+        for cn in g.nodes:
+            if cn.ast is None or cn.kind in ("entry", "exit", "raise-exit"):
+                continue
+            roots = [cn.ast] if not isinstance(cn.ast, (ast.For, ast.While, ast.If, ast.With, ast.Try, ast.FunctionDef, ast.ClassDef)) else [getattr(cn.ast, "test", None) or getattr(cn.ast, "iter", None)]
+            for root in roots:
+                if root is None:
+                    continue
+                if nd not in g.reaching()[cn].get(obj, frozenset()):
+                    continue
+                shadow = {id(y) for q in ast.walk(root) if isinstance(q, (ast.ListComp, ast.SetComp, ast.GeneratorExp, ast.DictComp, ast.Lambda)) and any(isinstance(t, ast.Name) and t.id == obj for gen in getattr(q, "generators", []) for t in ast.walk(gen.target)) for y in ast.walk(q)}
+                for x in ast.walk(root):
+                    if isinstance(x, ast.Name) and x.id == obj and isinstance(x.ctx, ast.Load) and id(x) not in known_nodes and id(x) not in shadow:
+                        par = next((q for q in ast.walk(root) if any(ch is x for ch in ast.iter_child_nodes(q))), None)
+                        if isinstance(par, ast.Attribute):
+                            continue  # attribute read of the expression object (expr.rank, expr.shape...)
+                        raise _grammar(fi, root, f"expression object `{obj}` used as a value in `{ast.unparse(root)[:70]}`")
+        calls = calls + wrapped
         descr = []
         for cn, c in calls:
             n_calls += 1
